@@ -45,7 +45,7 @@ let kind_of = function
   | "HashSet" | "HashMap" -> Crew (KHash, false, None)
   | "HashMulti" -> Crew (KMulti, true, None)
   | "TreeSet" | "TreeMap" -> Crew (KTree, false, None)
-  | "DataTable" -> Crew (KTable, true, None)
+  | "DataTable" -> Crew (KTable, false, None)
   | "vec" -> Arr (0, true)
   | "set" -> Crew (KTree, false, Some WSet) | "mset" -> Crew (KTree, true, Some WSet)
   | "map" -> Crew (KTree, false, Some WMap) | "mmap" -> Crew (KTree, true, Some WMap)
@@ -100,6 +100,7 @@ let parse_struct (tok : string) (id : int) (items : int list) (w : world) : sbod
         | _ -> failwith "multi token")
      | _ -> failwith "multi token")
   | 'D' ->
+    let body = (match split_on ':' body with b :: _ -> b | [] -> body) in
     (match split_on '.' body with
      | [_; fr] ->
        let (ra, w) = if items = [] then (None, w) else let (b, w') = fresh_block id w in (Some b, w') in
@@ -117,8 +118,19 @@ let show_struct = function
                          (Stdlib.List.length (Stdlib.List.filter (fun k -> k.mvals = []) ks))
   | STable (_, rows, free) -> Printf.sprintf "D%d.%d" (Stdlib.List.length rows) (Stdlib.List.length free)
 let show_sc = function SOwned (_, b) -> show_struct b | SMovedFrom -> "null"
+(* DataTable indexes: the part after ':' of a table token, e.g. u6,m6 *)
+let parse_idx (tok : string) : tindex list =
+  if tok = "" || tok.[0] <> 'D' then [] else
+  match split_on ':' tok with
+  | [_; is] -> Stdlib.List.map (fun t -> { iunique = (t.[0] = 'u'); iblocks = []; ientries = nat_of_int (int_of_string (String.sub t 1 (String.length t - 1))) }) (split_on ',' is)
+  | _ -> []
+let show_idx is = String.concat "," (Stdlib.List.map (fun (u, n) -> (if u then "u" else "m") ^ string_of_int (int_of_nat n)) is)
+let parse_shape (tok : string) =
+  if String.length tok < 3 || tok.[0] <> 'T' then [] else
+  Stdlib.List.map (fun tk -> match split_on '.' tk with [d; c] -> (nat_of_int (int_of_string d), nat_of_int (int_of_string c)) | _ -> failwith "shape")
+    (split_on ',' (String.sub tok 3 (String.length tok - 3)))
 
-let run_crew k multi wko tr op ss ts sid tid aid post sst tst =
+let run_crew k multi wko tr op ss ts sid tid aid post sst tst est =
   let w0 = { next = z 0; trace = [] } in
   let mk id st base w =
     let (c, w) = get (cc_new k (z id) w) in
@@ -151,7 +163,8 @@ let run_crew k multi wko tr op ss ts sid tid aid post sst tst =
     | "swap" -> if wrap then let ((t', s'), w') = get (w_swap trv t s w) in (t', s', w')
                 else let (t', s') = cc_swap t s in (t', s', w)
     | "merge" -> if items_of s = [] then (t, s, w)               (* MergeTo: `if (count == 0) return;` *)
-                 else let (s', t') = cc_swap s t in (t', s', w)   (* into an empty set, equal managers: Swap(dst) (c7fda03) *)
+                 else if items_of t = [] && sid = tid then let (s', t') = cc_swap s t in (t', s', w)   (* empty target, equal managers: Swap(dst) (c7fda03) *)
+                 else let ((t', s'), w') = get (cc_merge_from k t s w) in (t', s', w')    (* joined (fast path) or element-wise: items move, never copied *)
     | _ -> failwith "op" in
   let none = (op = "none") in
   let iscopy = String.length op >= 4 && String.sub op 0 4 = "copy" in
@@ -166,20 +179,45 @@ let run_crew k multi wko tr op ss ts sid tid aid post sst tst =
   let moved = (match s1 with MovedFrom -> true | _ -> false) in
   let ismovea = (op = "movea" || op = "moveca") in
   let ew = ismovea && not moved in
+  let merge_swap = (op = "merge" && items_of s <> [] && items_of t = [] && sid = tid) in
+  let merge_noop = (op = "merge" && items_of s = []) in
+  let mergex = (op = "merge" && not merge_swap && not merge_noop) in
+  let idxS = parse_idx sst and idxT = parse_idx tst in
+  let with_idx str is = if k = KTable && str <> "null" && str <> "*" then str ^ ":" ^ show_idx is else str in
+  let shape_idx is = Stdlib.List.map (fun i -> (i.iunique, i.ientries)) is in
   let ts_str =
-    if self || none then "-" else if ew then "?" else
-    if iscopy then (match stS with Some x -> (match s_copy k x (z 0) wS with Ok (c, _) -> show_sc c | _ -> "abort") | None -> "*")
-    else if op = "merge" && items_of s = [] then shw stT
-    else shw stS in                                   (* movec / steal / swap: the target holds the source's former graph *)
+    if self || none then "-" else if mergex then "?" else
+    if ew then
+      (* element-wise move: a fresh structure built by inserting the source's items in traversal order *)
+      (match bS with
+       | Some b -> let (b', _) = s_elementwise_body (z 0) (z 0) (parse_shape est) b wS in show_struct b'
+       | None -> "*")
+    else if iscopy then
+      (match stS with
+       | Some (SOwned (_, b)) when k = KTable ->
+         let (t', _) = s_copy_table (z 0) (z 0) { t_body = b; t_idx = idxS } wS in show_struct t'.t_body ^ ":" ^ show_idx (idx_shape t')
+       | Some x -> (match s_copy k x (z 0) wS with Ok (c, _) -> show_sc c | _ -> "abort")
+       | None -> "*")
+    else if merge_noop then with_idx (shw stT) (shape_idx idxT)
+    else with_idx (shw stS) (shape_idx idxS) in       (* movec / steal / swap / merge-swap: the target holds the source's former graph, indexes included *)
   let ss_str =
-    if moved then "null" else if ew then "?" else
-    if op = "swap" || (op = "merge" && items_of s <> []) then shw stT else shw stS in
+    if moved then "null"
+    else if ew || mergex then
+      (* the emptied source keeps its crew and a storage skeleton *)
+      (match bS with
+       | Some (SHash gens) -> if gens = [] then "H" else "H0"
+       | Some (STree (p, _)) -> if p = None then "T0:" else if mergex && sid = tid then "T1:" else "T1:0.0"
+       | Some (SMulti _) -> "M0:0.0"
+       | Some b -> show_struct b
+       | None -> "*")
+    else if op = "swap" || merge_swap then with_idx (shw stT) (shape_idx idxT)
+    else with_idx (shw stS) (shape_idx idxS) in
   let line1 = Printf.sprintf "ok T=%s S=%s tc=%s sc=%s mv=%d cp=%d ts=%s ss=%s"
       (if self || none then "-" else ids (mgr_of t1)) (ids (mgr_of s1))
       (if self || none then "[]" else show (il (items_of t1))) (show (il (items_of s1)))
       (if has_event is_move w1 && not iscopy then 1 else 0) (if has_event is_copy w1 then 1 else 0) ts_str ss_str in
   (* post operation on the source with a fresh F *)
-  let s1 = if op = "merge" then MovedFrom else s1 in         (* the harness lets the source's crew die after a merge *)
+  let s1 = if op = "merge" && post = "none" then MovedFrom else s1 in         (* the harness lets the source's crew die after a merge *)
   let useF = Stdlib.List.mem post ["swapf"; "fswap"; "massign"; "cassign"] in
   let (f, w2) = get (cc_new k (z aid) w1) in
   let (f, w2) = if useF then Stdlib.List.fold_left (fun (c, w) i -> get (cc_insert k multi c (z (300000 + 3 * i)) w)) (f, w2) [0; 1; 2; 3; 4] else (f, w2) in
@@ -273,12 +311,12 @@ let run_arr ic isvec tr op ss ts sid tid aid post =
 let () = iter_lines (fun line ->
   match words line with
   | trs :: kind :: op :: ss :: ts :: sid :: tid :: aid :: post :: rest ->
-    let (sst, tst) = (match rest with [a; b] -> (a, b) | _ -> ("*", "*")) in
+    let (sst, tst, est) = (match rest with [a; b] -> (a, b, "*") | [a; b; c] -> (a, b, c) | _ -> ("*", "*", "*")) in
     (try
       let tr = traits_of trs in
       let (sid, tid, aid) = (int_of_string sid, int_of_string tid, int_of_string aid) in
       (match kind_of kind with
-       | Crew (k, multi, wko) -> run_crew k multi wko tr op ss ts sid tid aid post sst tst
+       | Crew (k, multi, wko) -> run_crew k multi wko tr op ss ts sid tid aid post sst tst est
        | Arr (ic, isvec) -> run_arr ic isvec tr op ss ts sid tid aid post)
     with Abort -> print_endline "abort" | Wrong -> print_endline "ok E=1" | Failure m -> print_endline ("model-error:" ^ m))
   | _ -> print_endline "?")
